@@ -94,6 +94,14 @@ def plan(prop, tier, seed):
         raise KeyError(f"no plan for property {prop}")
     p = Plan(prop)
     fn(p, tier, seed)
+    # frame rule over every function of the package (discharges the assumption that module-level state is the state at
+    # import time, on which every per-call proof stands); see pvc/framescan.py
+    from . import framescan
+    u = p.add(GroundUnit(f"ground.{prop}/frame-scan", framescan.frame_scan, (prop,), props=(prop,)))
+    p.replayers[u.name] = framescan.replay_frame
+    if prop == "C13":
+        from . import history
+        p.add(BoundedUnit("bounded.C13/history-probe", history.history_unit, (tier, seed), props=("C13",)))
     return p
 
 
@@ -217,6 +225,8 @@ def _reader_common(p, styles=("file", "socket"), lemmas=()):
         p.replayers[u.name] = ru.replay_step
     for lm in lemmas:
         p.add(CustomUnit(f"lemma.reader/{lm}", ru.lemma_unit, (lm,), props=(p.prop,), cost=5))
+    # the configuration the step is quantified over is the one the constructor was given
+    p.func(R + "__init__")
     p.trusted_base += [T_PARSERS, T_PARSE_PURE, T_STREAM, T_LIFT,
                        "contracts/reader_spec.py (executable step specification, written from the framing rules); "
                        "cross-checked natively against the real reader as a bounded stand-in"]
@@ -304,7 +314,6 @@ def plan_C10(p, tier, seed):
     _reader_common(p, lemmas=("style", "basic[socket]", "eof_at_end[socket]"))
     for m in ("_recv", "read", "readline"):
         p.func(W + m)
-    p.func(R + "__init__")
     p.add(CustomUnit("lemma.C10/as-socket[read]", ru.as_socket_refinement_unit, ("read",), props=("C10",)))
     p.add(CustomUnit("lemma.C10/as-socket[readline]", ru.as_socket_refinement_unit, ("readline",), props=("C10",)))
     from . import bounded
@@ -366,12 +375,13 @@ def _instance_units(p, select, modes=(0, 1, 2)):
             p.add(u)
             p.replayers[u.name] = inst.replay_instance
             n += 1
-        u = CustomUnit(f"init[{inst.MODES[m]}:unknown-id]", inst.init_unit, (m, None), props=(p.prop,), cost=60)
-        u.select = select
-        u.cacheable = True
-        p.add(u)
-        p.replayers[u.name] = inst.replay_instance
-        n += 1
+        for resid, rk in (("unknown-id", None), ("odd-id", "odd")):
+            u = CustomUnit(f"init[{inst.MODES[m]}:{resid}]", inst.init_unit, (m, rk), props=(p.prop,), cost=60)
+            u.select = select
+            u.cacheable = True
+            p.add(u)
+            p.replayers[u.name] = inst.replay_instance
+            n += 1
     p.instances = {"message_keys": len(keys), "modes": len(modes), "instance_units": n,
                    "variants_per_instance": "payload any length x bitfield view {parsed, raw}; no payload; "
                                             "conforming payload x bitfield view"}
